@@ -133,6 +133,7 @@ def C04(F, rep, tier, cx):
     RF.F3F4(F, rep, cx.FL)
     RF.F3p(F, rep, cx.FL)
     RF.F5F6(F, rep, cx.R)
+    RF.G1(F, rep)   # no state shared between File instances (a static work buffer corrupts concurrent sessions)
     RF.E2B3(F, rep, cx.FL, {'E2'})
 
 
@@ -175,6 +176,7 @@ def C06(F, rep, tier, cx):
     ws = RP.K2(F, rep, cx.R)
     cx._ws = ws
     RP.K2s(F, rep, cx.R, ws)
+    RP.K2u(F, rep, cx.R, ws)
     RP.K3(F, rep, cx.R, cx.FL, ws)
     RP.K4(F, rep, cx.R, cx.FL)
     RP.K5(F, rep, cx.R, cx.FL, ('BLF',), 'valid-session')
@@ -190,6 +192,7 @@ def C07(F, rep, tier, cx):
     cx._ws = ws
     RP.K7(F, rep, cx.R, ws)
     RP.K8(F, rep, cx.R, cx.FL)
+    RF.K11(F, rep, cx.R, cx.FL)
     RP.Q(F, rep, cx.R, cx.FL)
     rep.obs = [o for o in rep.obs if o['rule'] != 'Q1']
     rep.counts.pop('Q1', None)
@@ -211,6 +214,7 @@ def C09(F, rep, tier, cx):
     """S1 resynchronisation table implied by the signature constant; S2 unknown-type path advances by the declared size from the object
     start and returns normally; S3 decode starts at the object start; S4 the stream's seekg is relative, bounded only by the declared end"""
     RF.S1(F, rep)
+    RF.S1e(F, rep, cx.FL)
     RF.S2S3(F, rep, cx.FL, {'S2', 'S3'})
     RF.S4(F, rep)
 
@@ -225,6 +229,10 @@ def C10(F, rep, tier, cx):
     RF.T1(F, rep, cx.FL)
     RF.DN(F, rep, cx.FL)
     RF.B7(F, rep)
+    RF.S1e(F, rep, cx.FL)                 # the signature search ends at end of input
+    ws = cx.ws()
+    RP.K2s(F, rep, cx.R, ws)              # hostile sizes put the get position ahead of the put position:
+    RP.K2u(F, rep, cx.R, ws)              # the producers' admission test must survive a negative fill level
 
 
 def C11(F, rep, tier, cx):
